@@ -587,7 +587,7 @@ theorem send_eq_spec (hs : List (String × String)) (m : MethodSpec)
 /-! ### the region predicate -/
 
 theorem region_wf (i : IfaceSpec) (calls : List Call) (h : region i calls = "WF") :
-    structOk i = true ∧ F_ptrDict i = false ∧ F_nilStructDeref i calls = false := by
+    structOk i = true ∧ F_ptrDict i = false ∧ F_nilStructDeref i calls = false ∧ aliasInPath i = false := by
   unfold region at h
   cases h0 : shapeOk i <;> simp only [h0, Bool.not_false, Bool.not_true, Bool.false_eq_true, ↓reduceIte] at h
   · exact absurd h (by decide)
@@ -598,6 +598,11 @@ theorem region_wf (i : IfaceSpec) (calls : List Call) (h : region i calls = "WF"
   case true => exact absurd h (by decide)
   cases h6 : F_nilStructDeref i calls <;> simp only [h6, Bool.false_eq_true, ↓reduceIte] at h
   case true => exact absurd h (by decide)
-  exact ⟨hso, rfl, rfl⟩
+  cases h7 : aliasInPath i <;> simp only [h7, Bool.false_eq_true, ↓reduceIte] at h
+  case true =>
+    cases h8 : F_aliasInPath i <;> simp only [h8, Bool.false_eq_true, ↓reduceIte] at h
+    · exact absurd h (by decide)
+    · exact absurd h (by decide)
+  exact ⟨hso, rfl, rfl, rfl⟩
 
 end ShootVerif.Rest
